@@ -2,7 +2,7 @@
 # tools/seeded_table.sh : runs the quick check of each seeded change's property against a scratch copy with
 # the change applied, updates seeded/*/meta.json (quick_check_verdict_current) and prints a table.
 cd /verif
-for d in seeded/C*-*/; do
+for d in seeded/${SEEDED_GLOB:-C*-*}/; do
   d=${d%/}; id=$(basename $d); prop=${id%%-*}
   res=$(tools/trial.sh $d/patch.diff $prop 2>&1 | grep -E "^$prop:" | head -1 | cut -c1-220)
   python3 - "$d" "$res" <<'PY'
